@@ -221,7 +221,7 @@ def finish(rep: Report, level="other", explanation="", rule_text="", trusted=(),
         exit_code = 2
     for o, k in known_hit:
         print(f"KNOWN-FINDING: property={prop} rule={o.rule} entry={o.entry} construct=`{o.construct}` — {k.get('what', o.msg)}")
-    if new_viol and exit_code == 0:
+    if new_viol:          # a definite violation stands whether or not other anchors were lost
         replay_dir.mkdir(exist_ok=True)
         for o, obs in new_viol:
             h = hashlib.sha1(repr(o.key).encode()).hexdigest()[:10]
